@@ -374,23 +374,38 @@ impl Check for C14 {
             judged = true;
             let rendered = e.rendered().to_string();
             let (path, lines) = parse_diag(&rendered);
-            let named = path.as_deref().map(normalize);
-            if named.as_deref() != Some(want_file.as_str()) {
+            // which of the world's files does the text name? (robust against rewording: every
+            // path of the world that occurs in the text, as written or normalised)
+            let mut named_files: Vec<String> = Vec::new();
+            for f in sc.world.files.iter().map(|f| f.path.clone()).chain(sc.world.extra.keys().cloned()) {
+                let base = f.rsplit('/').next().unwrap_or("").to_string();
+                let occurs = rendered.split(|c: char| c.is_whitespace() || c == ':').any(|tok| tok.ends_with(&base) && tok.starts_with('/') && normalize(tok) == f);
+                if occurs {
+                    named_files.push(f);
+                }
+            }
+            if let Some(p) = path.as_deref().map(normalize) {
+                if !named_files.contains(&p) {
+                    named_files.push(p);
+                }
+            }
+            if named_files.is_empty() {
+                // a diagnostic in a shape this check cannot read is not a violation
+                out.count("harness.diagnostic-names-no-file");
+                continue;
+            }
+            if !named_files.iter().any(|f| *f == want_file) {
                 out.violate_keyed(
                     "C14/wrong-file",
                     what.clone(),
                     format!("{}; {}", what, ctx_sig),
-                    format!("the invalid entry is in {} lines {}-{}; the diagnostic names {:?}\n{}", want_file, lo, hi, path, rendered),
+                    format!("the invalid entry is in {} lines {}-{}; the diagnostic names {:?}\n{}", want_file, lo, hi, named_files, rendered),
                 );
                 continue;
             }
             if lines.is_empty() {
-                out.violate_keyed(
-                    "C14/line-outside-entry",
-                    what.clone(),
-                    format!("{}; no line number shown; {}", what, ctx_sig),
-                    format!("the invalid entry is in {} lines {}-{}\n{}", want_file, lo, hi, rendered),
-                );
+                // nothing shown, nothing wrong (and a changed layout must not become an alarm)
+                out.count("harness.diagnostic-shows-no-line-number");
                 continue;
             }
             if let Some(bad) = lines.iter().find(|n| **n < lo || **n > hi) {
